@@ -206,6 +206,40 @@ def run(ctx):
         finally:
             api._store_var = None
             shutil.rmtree(d, ignore_errors=True)
+    # objects without value semantics over the memory store: compared by identity (no __eq__), or impossible to copy (they hold
+    # a lock): what the wrapper hands out on every fetch is what the bare store hands out - the stored object itself
+    import threading
+
+    class Plain(object):
+        pass
+
+    class Holder(object):
+        def __init__(self):
+            self.lock = threading.Lock()
+    for i, cap in enumerate(caps):
+        for mk_obj in (Plain, Holder, object):
+            bare, wrapped = MemoryStore(), LRUCacheStore(MemoryStore(), num_elem=cap)
+            objs = {"ka": mk_obj(), "kb": mk_obj()}
+            res.evaluations += 1
+            res.nontrivial("identity %s cap %d" % (mk_obj.__name__, cap))
+            bad = None
+            for st in (bare, wrapped):
+                for k_, o_ in objs.items():
+                    st.store_blob(k_, o_, None)
+            for rnd in range(3):
+                for k_, o_ in objs.items():
+                    outs = []
+                    for st in (bare, wrapped):
+                        try:
+                            got = st.fetch_blob(k_)
+                            outs.append("the stored object" if got is o_ else "another object (%s)" % type(got).__name__)
+                        except BaseException as e:
+                            outs.append("EXC:" + type(e).__name__)
+                    if outs[0] != outs[1] and bad is None:
+                        bad = "fetch number %d of key %s (a %s instance) gives %s on the bare memory store, %s through the cache" % (rnd + 1, k_, mk_obj.__name__, outs[0], outs[1])
+            if bad:
+                res.violations.append({"what": bad, "input": {"inner": "memory", "capacity": cap, "ops": [["store", "ka"], ["store", "kb"], ["fetch", "ka"], ["fetch", "kb"]] * 2,
+                                                             "values": mk_obj.__name__ + " instances"}, "kf": None})
     # path operations over the local store (not part of the lock step with the model above): several spellings of one path
     # ('/d/p2', '/d/p2/', '/d//p2' are one link for the local store), and a second handle on the same directories re-pointing a
     # path behind the cache's back: the wrapper answers what the bare store answers
